@@ -136,6 +136,23 @@ def _resolve_relative(modname: str, is_package: bool, level: int, target: Option
     return base
 
 
+_KNOWN: Optional[tuple] = None
+
+
+def _known_tables() -> tuple:
+    """spec/known_functions.json: names of the functions and module constants the rules were written against (engine/inline.py)."""
+    global _KNOWN
+    if _KNOWN is None:
+        import json
+        p = os.path.join(os.path.dirname(os.path.dirname(os.path.abspath(__file__))), "spec", "known_functions.json")
+        try:
+            d = json.load(open(p))
+            _KNOWN = (set(d["functions"]), set(d.get("constants", [])))
+        except (OSError, ValueError, KeyError):
+            _KNOWN = (set(), set())
+    return _KNOWN
+
+
 class Repo:
     """Parsed view of the repository at `root` (default /repo)."""
 
@@ -146,19 +163,31 @@ class Repo:
         self.by_rel: Dict[str, Module] = {}
         self.consulted: Dict[str, str] = {}  # rel -> sha256 (files a check actually looked at)
         self.parse_failures: List[str] = []
+        self.inline_log: List[str] = []  # helper-transparency pre-pass (engine/inline.py)
         pkg_dir = os.path.join(self.root, package)
         if not os.path.isdir(pkg_dir):
             raise AnalysisError(f"package directory missing: {pkg_dir}")
+        paths = []
         for dirpath, dirnames, filenames in os.walk(pkg_dir):
             dirnames[:] = sorted(d for d in dirnames if d != "__pycache__")
             for fn in sorted(filenames):
                 if fn.endswith(".py"):
-                    self._load(os.path.join(dirpath, fn))
+                    paths.append(os.path.join(dirpath, fn))
+        parsed = [self._parse(p) for p in paths]
+        known_f, known_c = _known_tables()
+        if known_f:
+            from .inline import inline_package
+            trees = {name: tree for (path, rel, name, is_pkg, src, tree, sha) in parsed}
+            pk = {name: is_pkg for (path, rel, name, is_pkg, src, tree, sha) in parsed}
+            self.inline_log = inline_package(trees, pk, known_f, known_c)
+            parsed = [(path, rel, name, is_pkg, src, trees[name], sha) for (path, rel, name, is_pkg, src, tree, sha) in parsed]
+        for rec in parsed:
+            self._register(*rec)
         if len(self.modules) < 40:
             raise AnalysisError(f"only {len(self.modules)} modules parsed under {pkg_dir}; expected the whole package")
 
     # ------------------------------------------------------------------ loading
-    def _load(self, path: str) -> Optional[Module]:
+    def _parse(self, path: str):
         rel = os.path.relpath(path, self.root)
         with open(path, "rb") as fh:
             raw = fh.read()
@@ -174,11 +203,17 @@ class Repo:
         if is_pkg:
             parts = parts[:-1]
         name = ".".join(parts)
+        return path, rel, name, is_pkg, src, tree, sha
+
+    def _register(self, path, rel, name, is_pkg, src, tree, sha) -> Module:
         m = Module(name=name, path=path, rel=rel, src=src, tree=tree, sha256=sha, is_package=is_pkg)
         self._index_module(m)
         self.modules[name] = m
         self.by_rel[rel] = m
         return m
+
+    def _load(self, path: str) -> Optional[Module]:
+        return self._register(*self._parse(path))
 
     def load_extra(self, rel: str) -> Module:
         """Parse a file outside the package (tests/, docs are handled as text) as an oracle."""
